@@ -102,6 +102,274 @@ def adv_oracle(case):
     return None
 
 
+# ------------------------------------------------------------------------------------------
+# PSK-path confusion: an adversary WITHOUT certificate key (and, unless stated, without the resumption secret) that
+# does an honest (EC)DHE exchange and plays with pre_shared_key in ServerHello / ClientHello.  Unlike C11's adversary
+# it does not borrow the honest peer's secrets: it re-derives the TLS 1.3 key schedule itself (hashlib / hmac, RFC 8446
+# section 7.1) over the transcript AS THE VICTIM SAW IT, under the schedule the victim would use for each hypothesis
+# ("none": early secret from zeros, "psk": early secret from the ticket's resumption secret = the legitimate server).
+import hashlib as _hashlib
+import hmac as _hmac
+
+_HASH = {0x1301: "sha256", 0x1302: "sha384", 0x1303: "sha256"}
+
+
+def _hx(alg, data=b""):
+    return _hashlib.new(alg, data).digest()
+
+
+def _extract(alg, salt, ikm):
+    return _hmac.new(salt, ikm, alg).digest()
+
+
+def _expand_label(alg, secret, label, context, length=None):
+    n = _hashlib.new(alg).digest_size if length is None else length
+    full = b"tls13 " + label
+    info = n.to_bytes(2, "big") + bytes([len(full)]) + full + bytes([len(context)]) + context
+    out, t, i = b"", b"", 1
+    while len(out) < n:
+        t = _hmac.new(secret, t + info + bytes([i]), alg).digest()
+        out += t
+        i += 1
+    return out[:n]
+
+
+def _hs_secret(alg, psk, shared):
+    n = _hashlib.new(alg).digest_size
+    early = _extract(alg, bytes(n), psk if psk is not None else bytes(n))
+    return _extract(alg, _expand_label(alg, early, b"derived", _hx(alg)), shared)
+
+
+def _finished(alg, traffic_secret, transcript):
+    return _hmac.new(_expand_label(alg, traffic_secret, b"finished", b""), _hx(alg, transcript), alg).digest()
+
+
+PSKCONF_FLIGHTS = {
+    "EE-FIN": ["EE", "FIN"],
+    "EE-CERTempty-FIN": ["EE", "CERT:empty", "FIN"],
+    "EE-CERTuntrusted-CV-FIN": ["EE", "CERT:untrusted", "CV:untrusted", "FIN"],
+    "EE-CR-FIN": ["EE", "CR", "FIN"],
+    "EE-CERTgood-CVotherkey-FIN": ["EE", "CERT:good", "CV:untrusted", "FIN"],
+    "EE-CERTgood-CV-FIN": ["EE", "CERT:good", "CV:good", "FIN"],        # the legitimate full flight (control)
+}
+
+
+def pskconf_client_cases(ctx):
+    cases = []
+    for mode in (0, 1, 2):                      # client: no ticket | ticket | ticket with early data
+        for sh_psk in (None, 0, 1):             # pre_shared_key extension of the ServerHello
+            for suite in ("ticket", "other"):   # 0x1302 (the ticket's suite, the client's first) | 0x1301
+                for knows in ("none", "psk"):
+                    for fl in PSKCONF_FLIGHTS:
+                        if fl == "EE-CERTgood-CV-FIN" and (knows == "psk" or suite == "other"):
+                            continue
+                        cases.append({"suite": "tls-pskconf", "role": "client", "client_psk": mode, "sh_psk": sh_psk,
+                                      "sh_suite": suite, "knows": knows, "flight": fl})
+    return cases
+
+
+def pskconf_server_cases(ctx):
+    cases = []
+    for early in (0, 1):
+        for ident in ("real", "unknown"):
+            for binder in ("real", "other-ticket", "zeros"):
+                for modes in ("present", "missing"):
+                    for store in ("same", "none"):
+                        cases.append({"suite": "tls-pskconf", "role": "server", "early": early, "identity": ident,
+                                      "binder": binder, "kex_modes": modes, "store": store})
+    return cases
+
+
+def pskconf_client_run(case):
+    """-> obs: completed, resumed, stop (alert / exception), state"""
+    from props import c11
+    from aioquic import tls
+    from aioquic.buffer import Buffer
+    from cryptography.hazmat.primitives.asymmetric import x25519
+    from cryptography.hazmat.primitives.serialization import Encoding
+    e = c11.env()
+    mode = case["client_psk"]
+    tk = e["ticket", mode == 2] if mode else None
+    v = c11._client_ctx(True)
+    if tk:
+        v.session_ticket = tk["client"]
+    keys = []
+    v.update_traffic_key_cb = lambda d, ep, cs, sec: keys.append((d.value, ep.value))
+    out = c11._bufs()
+    v.handle_message(b"", out)
+    ch = bytes(out[tls.Epoch.INITIAL].data)
+    hello = tls.pull_client_hello(Buffer(data=ch))
+    share = dict(hello.key_share)[tls.Group.X25519]
+    priv = x25519.X25519PrivateKey.generate()
+    shared = priv.exchange(x25519.X25519PublicKey.from_public_bytes(share))
+    from cryptography.hazmat.primitives.serialization import PublicFormat
+    suite = 0x1302 if case["sh_suite"] == "ticket" else 0x1301
+    sh = tls.ServerHello(random=bytes(range(32)), legacy_session_id=hello.legacy_session_id, cipher_suite=suite,
+                         compression_method=0,
+                         key_share=(tls.Group.X25519, priv.public_key().public_bytes(Encoding.Raw, PublicFormat.Raw)),
+                         pre_shared_key=case["sh_psk"], supported_version=tls.TLS_VERSION_1_3)
+    b = Buffer(capacity=2048)
+    tls.push_server_hello(b, sh)
+    shm = bytes(b.data)
+    alg = _HASH[suite]
+    ticket_secret = e["ticket", mode == 2]["server"].resumption_secret if mode else e["ticket", False]["server"].resumption_secret
+    psk = ticket_secret if case["knows"] == "psk" else None
+    hs = _hs_secret(alg, psk, shared)
+    transcript = ch
+    s_hs = _expand_label(alg, hs, b"s hs traffic", _hx(alg, ch + shm))
+    obs = {"completed": False, "resumed": False, "stop": None, "state": None, "accepted": ["CH"], "keys": []}
+
+    def feed(name, data):
+        nonlocal transcript
+        try:
+            v.handle_message(data, c11._bufs())
+        except tls.Alert as ex:
+            obs["stop"] = {"at": name, "alert": int(type(ex).description)}
+            return False
+        except Exception as ex:  # noqa: BLE001
+            obs["stop"] = {"at": name, "exception": type(ex).__name__}
+            return False
+        transcript += data
+        obs["accepted"].append(name)
+        return True
+
+    st0 = v.state
+    if feed("SH", shm):
+        certs = e["certs"]
+        for item in PSKCONF_FLIGHTS[case["flight"]]:
+            name, _, var = item.partition(":")
+            b = Buffer(capacity=4096)
+            if name == "EE":
+                tls.push_encrypted_extensions(b, tls.EncryptedExtensions(alpn_protocol=None, early_data=False, other_extensions=[]))
+            elif name == "CR":
+                tls.push_certificate_request(b, tls.CertificateRequest(request_context=b"", signature_algorithms=[0x0403]))
+            elif name == "CERT":
+                lst = [] if var == "empty" else [(certs[var][0].public_bytes(Encoding.DER), b"")]
+                tls.push_certificate(b, tls.Certificate(request_context=b"", certificates=lst))
+            elif name == "CV":
+                data = b" " * 64 + b"TLS 1.3, server CertificateVerify" + b"\x00" + _hx(alg, transcript)
+                sig = certs[var][1].sign(data, *tls.signature_algorithm_params(0x0403))
+                tls.push_certificate_verify(b, tls.CertificateVerify(algorithm=0x0403, signature=sig))
+            elif name == "FIN":
+                tls.push_finished(b, tls.Finished(verify_data=_finished(alg, s_hs, transcript)))
+            if not feed(item, bytes(b.data)):
+                break
+    obs["state"] = v.state.value
+    obs["completed"] = v.state == tls.State.CLIENT_POST_HANDSHAKE
+    obs["resumed"] = bool(v.session_resumed)
+    obs["keys"] = keys
+    return obs
+
+
+def pskconf_server_run(case):
+    from props import c11
+    from aioquic import tls
+    from aioquic.buffer import Buffer
+    e = c11.env()
+    early = bool(case["early"])
+    tk = e["ticket", early]
+    other = e["ticket", not early]
+    # an honest client builds the hello (with the real ticket); the adversary re-writes the PSK parts
+    c = c11._client_ctx(True)
+    c.session_ticket = tk["client"]
+    out = c11._bufs()
+    c.handle_message(b"", out)
+    hello = tls.pull_client_hello(Buffer(data=bytes(out[tls.Epoch.INITIAL].data)))
+    suite = int(tk["client"].cipher_suite)
+    alg = _HASH[suite]
+    n = _hashlib.new(alg).digest_size
+    ident = tk["client"].ticket if case["identity"] == "real" else b"\x5a" * len(tk["client"].ticket)
+    hello.pre_shared_key = tls.OfferedPsks(identities=[(ident, hello.pre_shared_key.identities[0][1])], binders=[bytes(n)])
+    if case["kex_modes"] == "missing":
+        hello.psk_key_exchange_modes = None
+    b = Buffer(capacity=4096)
+    tls.push_client_hello(b, hello)
+    raw = bytes(b.data)
+    secret = {"real": tk["client"].resumption_secret, "other-ticket": other["client"].resumption_secret, "zeros": None}[case["binder"]]
+    if secret is not None:
+        early_secret = _extract(alg, bytes(n), secret)
+        binder_key = _expand_label(alg, early_secret, b"res binder", _hx(alg))
+        binder = _finished(alg, binder_key, raw[:len(raw) - n - 3])
+        raw = raw[:len(raw) - n] + binder
+    s = c11._server_ctx(early)
+    if case["store"] == "same":
+        s.get_session_ticket_cb = lambda label: tk["server"] if label == tk["server"].ticket else None
+    keys = []
+    s.update_traffic_key_cb = lambda d, ep, cs, sec: keys.append((d.value, ep.value))
+    obs = {"stop": None}
+    try:
+        s.handle_message(raw, c11._bufs())
+    except tls.Alert as ex:
+        obs["stop"] = {"at": "CH", "alert": int(type(ex).description)}
+    except Exception as ex:  # noqa: BLE001
+        obs["stop"] = {"at": "CH", "exception": type(ex).__name__}
+    obs["resumed"] = bool(s.session_resumed)
+    obs["early_accepted"] = bool(s.early_data_accepted)
+    obs["zero_rtt_key"] = any(ep == tls.Epoch.ZERO_RTT.value for _, ep in keys)
+    obs["state"] = s.state.value
+    obs["completed"] = s.state == tls.State.SERVER_POST_HANDSHAKE
+    return obs
+
+
+def pskconf_oracle(case, obs):
+    """client reports completion only if a CertificateVerify verified under a trusted certificate, or a PSK it OFFERED was
+    selected by a peer that holds the resumption secret; a server resumes / releases 0-RTT keys only for a binder made
+    with the secret of the ticket it looked up"""
+    sig = {"suite": "tls-pskconf", "kind": "unauthenticated-completion", "role": case["role"]}
+    if case["role"] == "client":
+        legit_cert = case["flight"] == "EE-CERTgood-CV-FIN" and case["sh_psk"] is None and case["knows"] == "none"
+        legit_psk = case["client_psk"] >= 1 and case["sh_psk"] == 0 and case["knows"] == "psk" and case["sh_suite"] == "ticket"
+        if obs["completed"] and not (legit_cert or legit_psk):
+            return ("client (offered %s) reached POST_HANDSHAKE (session_resumed=%s) after ServerHello(pre_shared_key=%s, suite %s) + %s "
+                    "from a peer holding neither a trusted certificate key nor %s" % (
+                        ["no PSK", "a PSK", "a PSK with early data"][case["client_psk"]], obs["resumed"], case["sh_psk"],
+                        case["sh_suite"], case["flight"], "the resumption secret" if case["knows"] == "none" else "a selectable PSK"),
+                    dict(sig, client_psk=case["client_psk"], sh_psk=case["sh_psk"], flight=case["flight"]))
+        if obs["resumed"] and obs["state"] not in (1,) and not (case["client_psk"] >= 1 and case["sh_psk"] == 0):
+            return ("client reports session_resumed=True in state %s although it offered %s and the ServerHello carried "
+                    "pre_shared_key=%s" % (obs["state"], ["no PSK", "a PSK", "a PSK"][case["client_psk"]], case["sh_psk"]),
+                    dict(sig, kind="resumed-without-offered-psk", client_psk=case["client_psk"], sh_psk=case["sh_psk"]))
+        if legit_cert and case["client_psk"] == 0 and not obs["completed"]:
+            return ("control: the legitimate full flight did not complete (%s)" % (obs["stop"],), dict(sig, kind="honest-failed"))
+        if legit_psk and case["flight"] == "EE-FIN" and not obs["completed"]:
+            return ("control: the legitimate resumption flight did not complete (%s)" % (obs["stop"],), dict(sig, kind="honest-failed"))
+        return None
+    legit = case["identity"] == "real" and case["binder"] == "real" and case["kex_modes"] == "present" and case["store"] == "same"
+    if (obs["resumed"] or obs["early_accepted"] or obs["zero_rtt_key"]) and not (
+            case["identity"] == "real" and case["binder"] == "real" and case["store"] == "same"):
+        return ("server selected the PSK (resumed=%s early=%s 0-RTT key=%s) for identity=%s binder=%s ticket store=%s"
+                % (obs["resumed"], obs["early_accepted"], obs["zero_rtt_key"], case["identity"], case["binder"], case["store"]),
+                dict(sig, kind="psk-accepted-unauthenticated", identity=case["identity"], binder=case["binder"]))
+    if legit and not obs["resumed"]:
+        return ("control: a genuine PSK hello was not resumed (%s)" % (obs["stop"],), dict(sig, kind="honest-failed"))
+    return None
+
+
+def run_pskconf(ctx):
+    from props import c11
+    t0 = time.time()
+    c11.env()
+    cases = pskconf_client_cases(ctx) + pskconf_server_cases(ctx)
+    st = {"cases": 0, "completed": 0, "resumed": 0, "oracle_failures": 0, "stop_histogram": {}}
+    reported, obs_list = 0, []
+    for case in cases:
+        obs = (pskconf_client_run if case["role"] == "client" else pskconf_server_run)(case)
+        st["cases"] += 1
+        st["completed"] += int(bool(obs.get("completed")))
+        st["resumed"] += int(bool(obs.get("resumed")))
+        k = "ok" if not obs["stop"] else ("alert_%s" % obs["stop"].get("alert") if "alert" in obs["stop"] else "exc_" + obs["stop"]["exception"])
+        st["stop_histogram"][k] = st["stop_histogram"].get(k, 0) + 1
+        bad = pskconf_oracle(case, obs)
+        if bad:
+            st["oracle_failures"] += 1
+            if reported < 3:
+                reported += 1
+                ctx.violation("impl-violation", "tls-pskconf: " + bad[0], case, signature=bad[1])
+        obs_list.append((case, dict(obs, skipped=False)))
+    st["wall_s"] = round(time.time() - t0, 2)
+    return {"tls_pskconf": st, "_obs": obs_list}
+
+
 def run_adversary(ctx):
     from props import c11
     t0 = time.time()
@@ -230,6 +498,62 @@ def model_tie(ctx, tls_stats, quic_stats):
     return st
 
 
+def _quic_part(ctx):
+    """run the QUIC-level suites in a forked child while the parent runs the TLS-level ones (the two halves are
+    independent; each has its own PRNG stream derived from the seed).  Falls back to running in-process."""
+    import multiprocessing
+    import traceback
+    try:
+        mp = multiprocessing.get_context("fork")
+        rx, tx = mp.Pipe(duplex=False)
+    except Exception:  # noqa: BLE001
+        return None
+
+    def child():
+        code = 0
+        try:
+            rx.close()
+            ctx.rng = _sub_rng(ctx, "quic")
+            ctx.violations, ctx.known_hits = [], []
+            st = c03_quic.q_run(ctx)
+            tx.send(("ok", st, ctx.violations, ctx.known_hits))
+        except BaseException as e:  # noqa: BLE001
+            try:
+                tx.send(("err", repr(e), traceback.format_exc()[-2000:], []))
+            except Exception:  # noqa: BLE001
+                code = 1
+        finally:
+            try:
+                tx.close()
+            finally:
+                os._exit(code)      # never run the parent's cleanup handlers (overlay removal) in the child
+
+    proc = mp.Process(target=child)
+    proc.start()
+    tx.close()
+    return proc, rx
+
+
+def _quic_join(ctx, handle):
+    if handle is None:
+        ctx.rng = _sub_rng(ctx, "quic")
+        return c03_quic.q_run(ctx)
+    proc, rx = handle
+    try:
+        msg = rx.recv()
+    except EOFError:
+        msg = ("err", "QUIC-level child process died without a result", "", [])
+    proc.join(60)
+    if msg[0] != "ok":
+        raise RuntimeError("QUIC-level suites failed: %s\n%s" % (msg[1], msg[2]))
+    _, st, viols, known = msg
+    ctx.violations.extend(viols)
+    for k in known:
+        if k["id"] not in [x["id"] for x in ctx.known_hits]:
+            ctx.known_hits.append(k)
+    return st
+
+
 def run(ctx):
     t0 = time.time()
     cov_extra = {}
@@ -252,12 +576,14 @@ def run(ctx):
                 ctx.violation("impl-violation", "corpus %s: %s" % (fn, what), case, signature=sig)
     cov_extra["corpus_cases"] = corpus_n
     # implementation oracles
+    quic_handle = _quic_part(ctx)
     tls_stats = c03_tls.t_run(ctx)
     adv_stats = run_adversary(ctx)
-    quic_stats = c03_quic.q_run(ctx)
+    psk_stats = run_pskconf(ctx)
+    quic_stats = _quic_join(ctx, quic_handle)
     cov_extra["model_tie"] = model_tie(ctx, tls_stats, quic_stats)
     seen = set()
-    for stats in (tls_stats, adv_stats, quic_stats):
+    for stats in (tls_stats, adv_stats, psk_stats, quic_stats):
         for name, st in stats.items():
             if name.startswith("_") or not isinstance(st, dict):
                 continue
@@ -292,6 +618,11 @@ def replay(ctx, rep):
     suite = str(case.get("suite", ""))
     if suite.startswith("quic"):
         return c03_quic.q_replay(ctx, case)
+    if suite == "tls-pskconf":
+        from props import c11
+        c11.env()
+        obs = (pskconf_client_run if case["role"] == "client" else pskconf_server_run)(case)
+        return {"case": case, "obs": obs, "oracle": pskconf_oracle(case, obs)}
     if suite == "tls-adversary":
         from props import c11
         c11.env()
